@@ -258,3 +258,71 @@ def da_self_attrs(repo, classes, oid="DA.self-attrs"):
                 obs.append(ob_ok(oid, init, construct="self.%s assigned on every normal path of __init__" % attr, instance=cls + "." + attr,
                                  reason="read in %s" % fi.name))
     return obs
+
+
+def loop_carried(fi, loop):
+    """Names whose value can flow from one iteration of `loop` into a read in a later iteration: a definition inside the
+    loop reaches the loop head, and the read is reachable from the head without passing a definition of that name."""
+    from ..flow import iter_scope
+    cfg, fl = fi.cfg, fi.flow
+    body = cfg.loops.get(loop.id, set())
+    out = set()
+    no_exc = lambda a, b, l: l != "exc"
+    cache = {}
+    for n in cfg.nodes:
+        if n.id not in body and n.id != loop.id:
+            continue
+        names = []
+        for part in fl._read_parts(n):
+            for sub in iter_scope(part):
+                if isinstance(sub, ast.Name) and isinstance(sub.ctx, ast.Load) and sub.id in fl.locals:
+                    names.append(sub.id)
+        if n.kind == "stmt" and isinstance(n.ast, ast.AugAssign) and isinstance(n.ast.target, ast.Name) and n.ast.target.id in fl.locals:
+            names.append(n.ast.target.id)      # x += e reads x
+        for var in names:
+            if True:
+                if var in out:
+                    continue
+                back = [d for d in fl.reaching(var, loop.id) if d.node in body and d.kind != "for"]
+                if not back:
+                    continue
+                if var not in cache:
+                    defnodes = {d.node for d in fl.defs if d.var == var and d.kind not in ("unbound", "param", "entryattr")}
+                    cache[var] = (defnodes, cfg.reachable_from(loop.id, avoid=defnodes - {loop.id}, edge_filter=no_exc))
+                defnodes, reach = cache[var]
+                if n.id in reach or n.id == loop.id:
+                    out.add(var)
+                elif n.id in defnodes:
+                    # a statement that reads and rebinds the name (x = f(x), x += 1): reached from the head without an earlier rebinding?
+                    if any((p_ in reach or p_ == loop.id) and lab != "exc" and p_ in body | {loop.id} for p_, lab in cfg.pred[n.id]):
+                        out.add(var)
+    return out
+
+
+def det_loop_state(repo, functions, oid="DET.loop-state"):
+    """The scanners are loops whose only memory between two iterations is a confirmed set of variables (spec/loop_state.json:
+    per function, the number of (loop, variable) pairs that carry a value into a later iteration).  A new carried variable is
+    state that survives from one token / node to the next; whether that is intended cannot be decided here, so it is
+    reported as undecided with the variable named."""
+    with open(os.path.join(VERIF, "spec", "loop_state.json")) as fh:
+        table = json.load(fh)
+    from ..report import ob_undecided
+    obs = []
+    for fq in functions:
+        fi = repo.function(fq)
+        want = table.get(fq)
+        if want is None:
+            raise AnalysisError("spec/loop_state.json has no entry for %s" % fq)
+        pairs = []
+        for n in fi.cfg.nodes:
+            if n.kind in ("for", "while"):
+                for v in sorted(loop_carried(fi, n)):
+                    pairs.append((n.lineno, v))
+        if len(pairs) > want["pairs"]:
+            obs.append(ob_undecided(oid, fi, construct="%d loop-carried (loop, variable) pairs, %d confirmed: %s" % (len(pairs), want["pairs"], ", ".join("%s@%d" % (v, l) for l, v in pairs)),
+                                    instance=fi.qualname, reason="a variable carries a value from one iteration into a later one that was not confirmed as scanner state "
+                                    "(an earlier token / node / branch can influence a later one); review and update spec/loop_state.json"))
+        else:
+            obs.append(ob_ok(oid, fi, construct="%d loop-carried (loop, variable) pairs (confirmed: %d)" % (len(pairs), want["pairs"]), instance=fi.qualname,
+                             reason="no state survives between iterations beyond the confirmed scanner variables"))
+    return obs
